@@ -85,7 +85,7 @@ fn dispatch(driver: &str, a: &Args) {
         "c20" => c20::run(&a),
         "c20fixed" => c20::run_fixed(&a),
         "c19stress" => c19::run_stress(&a),
-        "c06" | "c07z" | "c09z" | "c10z" | "c13" => zd::run_zoned(&a, driver),
+        "c06" | "c07z" | "c09z" | "c10z" | "c11" | "c13" => zd::run_zoned(&a, driver),
         "c08" => civ::run_c08(&a),
         "c10" => civ::run_c10(&a),
         "c04" => tzd::run_c04(&a),
